@@ -204,10 +204,15 @@ func OverrideDockerId(util *Data, id string) error {
 	if nil == util {
 		return fmt.Errorf("util is nil")
 	}
-	if nil == util.Vendors {
-		util.Vendors = &vendors{}
+	// The vendors hash may be shared with the utilization data this one was
+	// copied from (a shallow copy per connect payload): never write through
+	// the shared pointer, replace it by a copy of our own.
+	v := vendors{}
+	if nil != util.Vendors {
+		v = *util.Vendors
 	}
-	util.Vendors.Docker = &docker{ID: id}
+	v.Docker = &docker{ID: id}
+	util.Vendors = &v
 	return nil
 }
 
